@@ -101,6 +101,8 @@ def gen_params(rng, cls, shape, N, pid, faults):
         elif fam == "fps" and pid != "C06":
             k = rng.randint(1, min(N, 4))
             p["initialize"] = rng.sample(range(n_from), k)
+            if rng.random() < 0.4:
+                p["initialize"] = {"$ndarray": p["initialize"]}
         else:
             p["initialize"] = rng.randrange(n_from)
     if fam in ("pcovfps", "pcovcur"):
@@ -119,6 +121,8 @@ def gen_params(rng, cls, shape, N, pid, faults):
             p["n_trial_calculation"] = rng.randint(1, 5)
     if rng.random() < (0.25 if faults else 0.08):
         p["progress_bar"] = True
+    if pid == "C01" and rng.random() < 0.1:
+        p["full"] = True  # documented flag; only legal without a threshold
     return p
 
 
@@ -155,7 +159,7 @@ def gen_c01(rng, idx, tier, faults):
         n_from = xs["shape"][info["axis"]]
         N = rng.randint(1, n_from)
         p = gen_params(rng, cls, xs["shape"], N, "C01", faults)
-        if rng.random() < 0.4:
+        if rng.random() < 0.4 and not p.get("full"):
             p.update(gen_threshold(rng, fam))
         name = f"e{o}"
         seq = [{"op": "NEW", "obj": name, "cls": cls, "params": p}]
@@ -262,6 +266,8 @@ def _c08_object(rng, o, heap, faults, exhaustive=None):
     limit = max(2, min(limit, 12))
     if isinstance(p.get("initialize"), list):
         p["initialize"] = p["initialize"][:1]
+    elif isinstance(p.get("initialize"), dict):
+        p["initialize"] = {"$ndarray": p["initialize"]["$ndarray"][:1]}
     return cls, info, fam, xs, xn, yn, n_from, p, limit
 
 
@@ -432,9 +438,9 @@ def reductions(trace):
 class SelectorScenario:
     GEN = {"C01": gen_c01, "C06": gen_c06, "C08": gen_c08}
     PLANS = {
-        "C01": {"quick": (1400, 1400), "thorough": (40000, 40000)},
-        "C06": {"quick": (1200, 1200), "thorough": (30000, 30000)},
-        "C08": {"quick": (1000, 1000), "thorough": (25000, 25000)},
+        "C01": {"quick": (6000, 6000), "thorough": (150000, 150000)},
+        "C06": {"quick": (4000, 4000), "thorough": (100000, 100000)},
+        "C08": {"quick": (4000, 4000), "thorough": (100000, 100000)},
     }
 
     def __init__(self, pid):
@@ -442,6 +448,13 @@ class SelectorScenario:
 
     def preload(self):
         from . import selectors  # noqa: F401
+
+    def anchor_files(self):
+        return {
+            "C01": ["_selection.py", "sample_selection/_voronoi_fps.py", "feature_selection/_base.py", "sample_selection/_base.py"],
+            "C06": ["sample_selection/_voronoi_fps.py", "_selection.py"],
+            "C08": ["_selection.py", "sample_selection/_voronoi_fps.py"],
+        }[self.pid]
 
     def plan(self, tier):
         q, f = self.PLANS[self.pid][tier]
